@@ -464,6 +464,13 @@ class Scope:
                 if q in prog.classes:
                     return Callee("ctor", q, cls=prog.classes[q])
                 return Callee("ext", q)
+            # ClassName.method(...): a static / class method (or a plain method called through its class)
+            if isinstance(recv, ast.Name) and recv.id not in self.params and recv.id not in self.defs:
+                cq = prog.resolve_name_in_module(self.module, recv)
+                if cq in prog.classes:
+                    m = prog.lookup(prog.classes[cq], meth)
+                    if m is not None:
+                        return Callee("pkg", m.qual, [m], recv, None, access_path(recv))
             rt = self.ty(recv)
             path = access_path(recv)
             if rt is not None:
